@@ -59,10 +59,15 @@ PROPS = {
              "wake-up for every reachable configuration (any number of clients, keys, steps, every interleaving) + hook-driven schedules on the real emulator",
              partial="Go channel/select semantics and the runtime scheduler are taken as the nondeterminism of the labels; the tie to the code is the schedule-point correspondence, not a proof about Go",
              assumptions=["a buffered channel of capacity 1 never blocks its single pending send; select may take any ready case"]),
-    "C19": P(["PropC19"], ["C19"],
+    "C19": P(["PropC19", "PropC19Dir"], ["C19", "C19D"],
              "persistence: snapshot/load round trip, every command either changes nothing or marks the database dirty, saver invariant => restart after any "
-             "history equals the state, crash atomicity of temp-file+rename for every prefix of the write sequence (and the refutation of the original in-place save) "
-             "+ correspondence: histories, save, more changes, save with on-disk copies at every stage (verifPoint), clean shutdown, restart; every copy must load as old or new",
+             "history equals the state, crash atomicity of temp-file+rename for every prefix of the write sequence (and the refutation of the original in-place save); "
+             "the start-up walk over the persist directory (PersistDir.v): exactly the names <base>.db<n> are picked, never the temporary ones, files below subdirectories and "
+             "foreign names are ignored, the outcome does not depend on the order of the directory, and a save of all databases cut at ANY point boots every database as its "
+             "previous or its new snapshot "
+             "+ correspondence: histories, save, more changes, save with on-disk copies at every stage (verifPoint), clean shutdown, restart; every copy must load as old or new; "
+             "a neighbour emulator saving below the same directory; prepared directories (canonical, non-canonical, temporary, near-miss and foreign names, subdirectories, "
+             "truncated files) started on and compared database by database with the model's walk",
              partial="encoding/gob round-trips the record types, POSIX rename is atomic, no fsync reasoning: trusted",
              assumptions=["file system and gob are modelled at record level (Persist.v)"]),
     "C12": P(["PropC12", "PropC11"], ["C12"],
@@ -96,7 +101,7 @@ PROPS = {
              "string/counter commands: theorems on the model (overflow test = mathematical overflow, MSETNX all-or-nothing, GETRANGE/SETRANGE "
              "specifications, SET option table, decimal text round trip, errors leave the db unchanged) + correspondence of every reply and of the "
              "visible state after random histories over the family",
-             findings=["getrange-negative-end-clamp", "set-option-order", "lcs-repeated-option"], assumptions=SEQ_ASSUME),
+             findings=["getrange-negative-end-clamp", "set-option-order", "lcs-repeated-option", "incrbyfloat-error-order"], assumptions=SEQ_ASSUME),
     "C03": P(["PropC03"], ["C03"],
              "list commands: theorems on the model (index normalisation vs a Redis-style spec, push/pop equations, LMOVE same-key rotation and "
              "conservation, LREM/LINSERT/LPOS specifications, never-empty, errors inert) + correspondence over random histories",
